@@ -38,13 +38,13 @@ type Step struct {
 // Script is a complete run description and is the replay file format.
 type Script struct {
 	Property string         `json:"property"`
-	Seed     uint64         `json:"seed"`      // run seed (derived)
-	Batch    uint64         `json:"batch"`     // VERIF_SEED of the batch
-	Index    int            `json:"index"`     // run index in the batch
-	Config   map[string]int `json:"config"`    // swarm configuration of this run
-	Steps    []Step         `json:"steps"`     // single-task engines
-	Tasks    [][]Step       `json:"tasks"`     // concurrent engines: one script per task
-	Schedule []int          `json:"schedule"`  // concurrent engines: scheduler choices
+	Seed     uint64         `json:"seed"`             // run seed (derived)
+	Batch    uint64         `json:"batch"`            // VERIF_SEED of the batch
+	Index    int            `json:"index"`            // run index in the batch
+	Config   map[string]int `json:"config"`           // swarm configuration of this run
+	Steps    []Step         `json:"steps"`            // single-task engines
+	Tasks    [][]Step       `json:"tasks"`            // concurrent engines: one script per task
+	Schedule []int          `json:"schedule"`         // concurrent engines: scheduler choices
 	Expect   *Expect        `json:"expect,omitempty"` // set on replay files
 }
 
